@@ -135,6 +135,9 @@ theorem fmt_u2f_in_hierarchy {W : World} {st : AttStmt} {cdj rpIdHash credId cre
 theorem builtinPemsM_errIn {W : World} (l : List String) : MErrIn InHierarchy W (builtinPemsM l) := by
   intro e he; rw [builtinPemsM_run] at he; cases he
 
+theorem pemCanonsM_errIn {W : World} (l : List Bytes) : MErrIn InHierarchy W (pemCanonsM l) := by
+  intro e he; rw [pemCanonsM_run] at he; cases he
+
 theorem getLast_mem {l : List Bytes} {x : Bytes} (h : l.getLast? = some x) : x ∈ l := List.mem_of_getLast? h
 
 /-- android-key -/
@@ -161,7 +164,8 @@ theorem fmt_android_key_in_hierarchy {W : World} {st : AttStmt} {ad cdj credKey 
   obtain ⟨rc, hrc, _⟩ := wf.certsLoad _ hx5c rootDer (getLast_mem hrd)
   obtain ⟨c, hc, hext⟩ := wf.certsLoad _ hx5c leaf (by simp)
   refine MErrIn_bind (loadCert_errIn ⟨rc, hrc⟩) fun _ _ => MErrIn_bind validateChainReg_errIn fun _ _ =>
-    MErrIn_bind (builtinPemsM_errIn _) fun _ _ => MErrIn_bind (MErrIn_reject (lib _)) fun _ _ =>
+    MErrIn_bind (builtinPemsM_errIn _) fun _ _ => MErrIn_bind (pemCanonsM_errIn _) fun _ _ =>
+    MErrIn_bind (MErrIn_reject (lib _)) fun _ _ =>
     MErrIn_bind (MErrIn_ask _) fun cdh _ => MErrIn_bind (MErrIn_liftE attToBeSigned_errIn) fun data _ =>
     MErrIn_bind (MErrIn_liftE (fun e he => by simp [headOr, someOr] at he)) fun leaf' hl' => ?_
   have := head_cons hl'
